@@ -62,6 +62,7 @@ RESERVED = frozenset(("clear copy get set items iteritems iterkeys itervalues li
                       "pop popitem setdefault update").split())
 
 K2 = "computed-dotted-index-final-segment:ValueError"
+K5 = "backtrack-after-dotted-computed-index"
 K3 = "copy.copy-shares-levels-inside-list"
 K4 = "reserved-name-accepted-as-intermediate-level"
 
@@ -184,6 +185,18 @@ def parse(key):
     p = Parsed(key, cls, tuple(stack), shape)
     _parse_cache[key] = p
     return p
+
+
+def k5_shape(key):
+    """'..' directly after an element whose index expression contains a dot: 'l[m.i[1]]..b', 'l[l[0].a]..b'.
+    Decided from the key text alone (before the subject is run); every violation on such a key gets kind K5."""
+    toks = _tokens(key)
+    for i, t in enumerate(toks[:-1]):
+        if isinstance(t, str) and isinstance(toks[i + 1], int) and toks[i + 1] >= 2:
+            m = _COMP.match(t)
+            if m and "." in m.group(2):
+                return True
+    return False
 
 
 def k2_shape(p):
@@ -368,6 +381,10 @@ def m_levels(tree, prefix=""):
 # value spec -> (kind, body); body uses ("dd", items) for "built as a dotdict", dict for a PLAIN dict, list for a list
 VALUES = {
     "i1": ("scalar", 1),
+    "n0": ("scalar", None),                     # a leaf that holds None is still a leaf
+    # a level holding a list of ints and a list of levels with an int field: index expressions like l[m.i[1]] and
+    # l[m.s[0].a], whose NON-first dotted piece opens another bracket
+    "mi": ("dotdict", ("dd", (("i", [1, 0]), ("s", [("dd", (("a", 0),)), ("dd", (("a", 1),))])))),
     "sv": ("scalar", "v"),
     "pe": ("plain", {}),
     "pb": ("plain", {"b": 1}),
@@ -397,12 +414,14 @@ QUICK_PATHS = [
     "a.b..",         # a
     # lists of levels
     "l", "l[0].a", "l[1]", "l[1].b", "l[2]", "l[l[0].a].b", "l[0]..b", "l[10].a",
+    # index expressions that are dotted paths with a bracket in a later piece
+    "m", "l[m.i[1]].a", "l[l[0].a]..b",
     # reserved names
     "keys", "__x", "a.get", "keys.a", "a.__x",
     # silent
     "a.", "", "..", "a..", "a.b.",
 ]
-THOROUGH_PATHS = QUICK_PATHS + ["c", "b.a", "...a", "....a.b", "a.x.y...b", "a.l", "a.l[0].a", "l[0].b.c", "pop", "a.update",
+THOROUGH_PATHS = QUICK_PATHS + ["l[m.s[1].a].b", "c", "b.a", "...a", "....a.b", "a.x.y...b", "a.l", "a.l[0].a", "l[0].b.c", "pop", "a.update",
                                 "l[0].keys", "."]
 
 QUICK_VALS = ["i1", "pe", "pb", "pn", "dd"]
@@ -423,6 +442,12 @@ CTORS = {
 }
 
 
+# per-path value alphabets that differ from the tier's default
+PATH_VALUES = {"m": ["mi"], "l[m.i[1]].a": ["i1"], "l[l[0].a]..b": ["i1"], "l[m.s[1].a].b": ["i1", "pb"]}
+NONE_PATHS_QUICK = ["a", "a.b", "l[0].a"]
+NONE_PATHS_WIDE = NONE_PATHS_QUICK + ["b", "a.b..c", "l[1]"]
+
+
 def list_paths(paths):
     return [p for p in paths if p in ("l", "a.l")]
 
@@ -435,8 +460,9 @@ def ops_for(alpha):
         paths, vals, lvals, ups = THOROUGH_PATHS, THOROUGH_VALS, THOROUGH_LVALS, ["u1", "u2", "u3", "u4", "u5"]
     ops = []
     lp = set(list_paths(paths))
+    nonep = NONE_PATHS_QUICK if alpha == "quick" else NONE_PATHS_WIDE
     for p in paths:
-        for v in (lvals if p in lp else vals):
+        for v in (PATH_VALUES.get(p) or (lvals if p in lp else vals)) + (["n0"] if p in nonep else []):
             ops.append(("set", p, v))
             ops.append(("setattr", p, v))
             ops.append(("setdefault", p, v))
@@ -477,6 +503,13 @@ HAND_LOOK = [
     "l[1]..l[0].a", "l.a", "a[0]", "l[0].a.x", "l[a.b].a", "l[a.b]",
     "keys", "get", "__x", "a.keys", "a.get", "keys.a", "a.__x", "pop", "update",
     "a.l", "a.l[0].a", "a.l[1]..b", "a.l[0]...c",
+    "m.i[1]", "m.s[1]", "l[m.i[1]].a", "l[m.i[0]].a", "l[m.i[1]]", "l[m.i[2]].a", "l[m.s[1].a].a", "l[m.s[1].a]",
+    "m.s[i[0]].a", "a..l[m.i[0]].a",
+    # '..' right after an element with a dotted index expression (kind K5 on the unchanged tree)
+    "l[m.i[1]]..b", "l[l[0].a]..b",
+]
+HAND_LOOK_THOROUGH = [
+    "m", "m.i", "m.i[2]", "m.s[0].a", "l[m.s[0].a].a", "l[m.s[1].a].b", "m.s[m.i[0]].a", "m.s[s[1].a].a", ".l[m.i[1]].a",
 ]
 
 
@@ -490,7 +523,7 @@ def look_paths(tier):
     if tier != "quick":
         base += dotted_strings("abc", 3)
     seen, out = set(), []
-    for p in base + HAND_LOOK + QUICK_PATHS + THOROUGH_PATHS:
+    for p in base + HAND_LOOK + (HAND_LOOK_THOROUGH if tier != "quick" else []) + QUICK_PATHS + THOROUGH_PATHS:
         if p not in seen:
             seen.add(p)
             out.append(p)
@@ -651,6 +684,7 @@ def rebuild(history):
 # or None when the statement is silent about the operation (class 'silent').
 
 ANY = ("any",)
+_REFUSED_VALUE = ("refused-value",)
 
 
 def _alts_refuse(before_c, residue_c):
@@ -674,7 +708,7 @@ def m_expect(before_c, op, reserved_intermediate=True):
         try:
             val = m_value(op[2])
         except Refuse as r:
-            val, info["valrefuse"] = None, r.reason
+            val, info["valrefuse"] = _REFUSED_VALUE, r.reason
         if kind in ("chainattr", "chainitem"):
             # python-level walk: every intermediate level must already exist
             par = m_lookup(tree, p.comps[:-1])
@@ -687,7 +721,7 @@ def m_expect(before_c, op, reserved_intermediate=True):
                 return None, info
             if r is not MISSING:
                 return [("ok", before_c, m_canon(r[1]))], info
-        if val is None:
+        if val is _REFUSED_VALUE:
             # the value itself holds a reserved key: refused; earlier keys of it never reach the tree
             info["reason"] = "reserved-in-value"
             try:
@@ -849,6 +883,8 @@ def check_transition(before_c, history, op, outcomes=None):
     msg = "%s on %s: expected %s; real %s, tree %s" % (
         describe(op), show(before_c), " | ".join(_show_alt(a) for a in alts),
         "returned %s" % show(ret_c) if how == "ok" else "raised %s(%s)" % (res[1], res[2]), show(after_c))
+    if tag not in ("update", "ctor") and k5_shape(op[1]):
+        return [(K5, msg)], None, after_c != before_c, True
     alts4, info4 = m_expect(before_c, op, reserved_intermediate=False)
     if alts4 is not None and _match(alts4, how, after_c, ret_c):
         # the only difference between the two expectations is that a reserved name may become an intermediate level
@@ -999,6 +1035,11 @@ def check_lookup(d, tree, p, outcomes=None, stats=None):
         if stats is not None:
             stats["found"] += 1
         out("model:found:%s:%s" % (q.shape, "level" if isinstance(exp[1], dict) else "list" if isinstance(exp[1], list) else "leaf"))
+        if exp[1] is None:
+            out("model:found:None-leaf:%s" % q.shape)
+        if q.shape == "computed-index" and any(c[1] and c[1][0] == "path" and "[" in c[1][1].split(".", 1)[-1] and "." in c[1][1]
+                                               for c in q.comps):
+            out("model:found:computed-index:bracket-in-later-piece")
         if item[0] != "ok":
             bad.append(("lookup-fails-for-present-path:" + q.shape,
                         "tree %s holds %r (= %s) -> %s but d[%r] raises %s(%s)" % (
@@ -1016,6 +1057,8 @@ def check_lookup(d, tree, p, outcomes=None, stats=None):
 
 def _reclass(bad, d, tree, p, q, item):
     """A computed dotted index as the final segment that dies in tuple unpacking keeps its own precise kind (fixed in ed02f6b)."""
+    if k5_shape(p):
+        return [(K5, m) for _, m in bad[:1]]
     if k2_shape(q) and item[0] == "exc" and item[1] == "ValueError" and "unpack" in item[2]:
         return [(K2, bad[0][1])]
     return bad
@@ -1448,6 +1491,8 @@ def guards(acc, ctx):
             "model:found:dotdot:level", "model:found:leading-dot:leaf", "model:found:leading-dot:level",
             "model:found:indexed:leaf", "model:found:indexed:level", "model:found:computed-index:leaf",
             "model:found:computed-index:level", "model:absent", "keys:two-digit-index",
+            "model:found:computed-index:bracket-in-later-piece", "model:found:None-leaf:plain", "model:found:None-leaf:dotdot",
+            "model:found:None-leaf:indexed",
             "model:copy-checked:with-list-of-levels", "model:deepcopy-checked:with-list-of-levels",
             "model:copy-checked:levels-only"]
     for n in need:
